@@ -81,7 +81,7 @@ Definition model (ops : list dop) : list (list (list N)) := run m0 ops.
    - a public line reaches exactly the connected users that may read chat (when the sender may send);
    - a private line / subject / join / leave / decline notice reaches exactly the connected members;
    - nobody else receives anything of that kind. *)
-Record ocli := mk_oc { oc_tok : N; oc_id : N; oc_read : bool; oc_send : bool }.
+Record ocli := mk_oc { oc_tok : N; oc_id : N; oc_read : bool; oc_send : bool; oc_name : list N }.
 Record ostate := mk_o { o_clients : list ocli; o_chats : list (N * list N) (* chat -> member tokens *) }.
 Definition o_find (t : N) (s : ostate) : option ocli :=
   match filter (fun c => oc_tok c =? t) (o_clients s) with c :: _ => Some c | [] => None end.
@@ -104,12 +104,15 @@ Definition ostep (s : ostate) (o : dop) (obs : list (list N)) : ostate * bool :=
   let '(code, args) := o in
   let tok := num (a 0 args) in
   match code with
-  | 1 => (mk_o (mk_oc tok (num (a 0 obs)) (flag (a 2 args)) (flag (a 3 args)) :: o_clients s) (o_chats s), true)
+  | 1 => (mk_o (mk_oc tok (num (a 0 obs)) (flag (a 2 args)) (flag (a 3 args)) (a 1 args) :: o_clients s) (o_chats s), true)
   | 2 =>
       match o_find tok s with
       | Some c =>
           let want := if oc_send c then sort_ids (map oc_id (filter oc_read (o_clients s))) else [] in
-          (s, same (got_kind 1 obs) want)
+          (* every delivered line carries the sender's name and the message in the protocol's format, cut to 8192 *)
+          let txt := [1; 0] ++ short (format_chat (oc_name c) (a 1 args) (flag (a 2 args))) in
+          (s, same (got_kind 1 obs) want &&
+              forallb (fun b => match skipn 2 b with 1 :: _ => bytes_eqb (skipn 2 b) txt | _ => true end) obs)
       | None => (s, true)
       end
   | 3 => (o_set_members (num (a 0 obs)) [tok] s, true)
@@ -123,7 +126,10 @@ Definition ostep (s : ostate) (o : dop) (obs : list (list N)) : ostate * bool :=
   | 7 => (s, same (got_kind 4 obs) (ids_of (o_members (num (a 1 args)) s) s))
   | 8 =>
       match o_find tok s with
-      | Some c => (s, same (got_kind 1 obs) (if oc_send c then ids_of (o_members (num (a 1 args)) s) s else []))
+      | Some c =>
+          let txt := [1; 1] ++ be32 (num (a 1 args)) ++ short (format_chat (oc_name c) (a 2 args) (flag (a 3 args))) in
+          (s, same (got_kind 1 obs) (if oc_send c then ids_of (o_members (num (a 1 args)) s) s else []) &&
+              forallb (fun b => match skipn 2 b with 1 :: _ => bytes_eqb (skipn 2 b) txt | _ => true end) obs)
       | None => (s, true)
       end
   | 9 => (mk_o (filter (fun c => negb (oc_tok c =? tok)) (o_clients s))
